@@ -28,7 +28,8 @@ from concurrent.futures import ThreadPoolExecutor, ProcessPoolExecutor
 
 import multiprocessing
 
-from .. import common, docs, concretise, project, tlc, vocab, impl  # noqa: F401  (impl: import path of the tree under test, quiet logging)
+from .. import common, docs, concretise, project, tlc, vocab
+from .. import impl  # noqa: F401  (puts the tree under test on the import path, quietens its logging)
 
 RULE = ("exit status / stdout lines of `mappyfile validate`, bytes written by `format` and `schema`, dictionaries "
         "returned by open/load/loads and characters written by save/dump/dumps == what spec/Frontend.tla predicts "
@@ -499,7 +500,6 @@ def select_format(cfgs, n, rng):
 
 
 def schema_case(h, root, idx, seed):
-    import mappyfile  # noqa: F401
     from mappyfile.validator import Validator
     env, act = h[0], h[1]
     d = os.path.join(root, "s%05d" % idx)
@@ -835,7 +835,10 @@ def run(tier):
     skipped = {}
     kinds_seen = set()
     calls = 0
-    for (kind, payload), (finds, info) in zip(items, out):
+    def simplest_first(io):             # the first case reported under a signature should be a small one
+        (kind, payload), _ = io
+        return (0, 0) if kind == "api" else (1, len(payload[0][0].get("kinds", [])))
+    for (kind, payload), (finds, info) in sorted(zip(items, out), key=simplest_first):
         if kind == "api":
             if info["skipped"]:
                 skipped[info["skipped"]] = skipped.get(info["skipped"], 0) + 1
@@ -890,6 +893,7 @@ def replay(path):
     finally:
         shutil.rmtree(root, ignore_errors=True)
     hit = [f for f in finds if f[0] == rp["signature"]]
+    finds = list({f[0]: f for f in reversed(finds)}.values())
     for sig, what, _ in finds:
         print("%s property=C20 replay=%s  # %s :: %s" % ("VIOLATION" if sig == rp["signature"] else "ALSO", path, sig, what))
     if not hit:
